@@ -112,9 +112,13 @@ func (st *SocketServer) acceptConnection() {
 			}
 			continue
 		}
-		if err = AcceptConnection(conn, &st.ServerConfig, st.secure, st.upstreams); err != nil {
-			log.WithError(err).Errorf("Error accepting connection: %v", err)
-		}
+		// Negotiate on a separate goroutine: a peer that connects and then stalls (or sends
+		// slowly, or garbage) must only delay its own session, not the accept loop.
+		go func(conn net.Conn) {
+			if err := AcceptConnection(conn, &st.ServerConfig, st.secure, st.upstreams); err != nil {
+				log.WithError(err).Errorf("Error accepting connection: %v", err)
+			}
+		}(conn)
 	}
 }
 
